@@ -180,6 +180,7 @@ func (e *Engine) explore(name string, fn *ssa.Function, cfg Config) *HarnessRun 
 	}
 	deadline := time.Now().Add(cfg.Wall)
 	setSolverDeadline(deadline.Add(30 * time.Second))
+	bvIntsOff.Store(cfg.BVIntsOff)
 	stopTick := make(chan struct{})
 	if e.verbose > 0 {
 		go func() {
